@@ -867,6 +867,6 @@ MANIFEST = dict(
         "Necessary conditions of C17; that paired commands invert each other on data is not decided."),
     level_note="Trusted: python ast; multiprocessing.Pool semantics (each item processed once). F2 (suffix filter used "
                "the prefix; --file-suffix unread) was found by G4/G7 and repaired.",
-    technique="static analysis: unordered-source to order-sensitive-sink flow analysis, effect analysis of worker functions, option-consumption and affix-kind lints, argument binding; interpretation of the ali length-moments worker over exact tensors for 0-3 excluded ids",
+    technique="static analysis: unordered-source to order-sensitive-sink flow analysis, effect analysis of worker functions, option-consumption and affix-kind lints, argument binding; interpretation of the ali length-moments worker over exact tensors for 0-3 excluded ids; ali <-> token workers interpreted against a modelled directory (round trip and refusals)",
     design_ref="DESIGN.md section 4 C17",
 )
